@@ -31,7 +31,7 @@ ASSUMPTIONS = [
 ]
 REQUIRED_COUNTERS = ["schemas", "roundtrip.identical", "third_iteration.identical", "python.classes_equal",
                      "j1.with_definitions", "j1.with_required", "j1.falsy_keyword_value", "j1.renamed_property",
-                     "source.docs", "source.grammar"]
+                     "source.docs", "source.grammar", "source.sibling_docs"]
 NUMBERED = re.compile(r"_\d+$")
 
 ANCHORS = [
@@ -90,6 +90,14 @@ def f22_class_names(doc):
     return [name for name in names if f22_trigger(name)]
 
 
+def class_titles(doc):
+    out = [name for name, sub in (doc.get("definitions") or {}).items()
+           if isinstance(sub, dict) and sub.get("type") == "object"]
+    if isinstance(doc, dict) and doc.get("type") == "object" and isinstance(doc.get("title"), str):
+        out.append(doc["title"])
+    return out
+
+
 def reparse(sut, ctx, doc, tag):
     elements = sut.parse_file(copy.deepcopy(doc), ctx.tmpdir(), f"c06_{ctx.shard}_{tag}.json")
     return elements
@@ -122,7 +130,12 @@ def roundtrip(ctx, sut, fpm, elements, case, tag):
         return
     if not refmodel.json_eq(j1, j2):
         finding = None
-        if numbered_titles(j1) and refmodel.json_eq(normalise_json(j1), normalise_json(j2)):
+        if numbered_titles(j1) and refmodel.json_eq(normalise_json(j1), normalise_json(j2)) and \
+                sorted(NUMBERED.sub("", t) for t in class_titles(j1)) == \
+                sorted(NUMBERED.sub("", t) for t in class_titles(j2)):
+            # F24 as observed on the pinned tree: the second parse strips the _N suffix (Foo_1 formats to
+            # Foo) and numbers again in its own parse order, so the same BASE names come back, possibly
+            # with other suffixes.  Any other change of names is not this finding.
             finding = "F24"
         elif f22_class_names(j1):
             finding = "F22"
@@ -188,6 +201,7 @@ def run_shard(ctx):
     from vlib import sut  # pylint: disable=import-outside-toplevel
 
     rng = ctx.rng
+    pending_sibling = None
     for idx in range(ctx.params["schemas"]):
         tag = f"{idx}_{os.getpid()}"
         if idx % 3 == 0:
@@ -211,6 +225,8 @@ def run_shard(ctx):
                 gen_docs.remove_files(doc, directory)
             ctx.count("source.docs")
             case = {"files": doc["files"], "entry": doc["entry"]}
+            if idx % 2 == 0:
+                pending_sibling = doc
         else:
             opts = gs.Opts(defaults=0.3)
             schema = gs.with_definitions(rng, opts) if idx % 2 else gs.any_schema(rng, opts)[0]
@@ -228,6 +244,26 @@ def run_shard(ctx):
             ctx.count("j1.renamed_property")
         roundtrip(ctx, sut, fpm, elements, case, tag)
         ctx.sample(case, every=70)
+        if pending_sibling is not None:
+            # the same document again in this process with shifted class numbering (see c02.variant_of)
+            from vlib.checks.c02 import variant_of  # pylint: disable=import-outside-toplevel
+
+            sibling = variant_of(pending_sibling, "v")
+            pending_sibling = None
+            if sibling is not None:
+                directory = ctx.tmpdir()
+                path = gen_docs.write_files(sibling, directory)
+                try:
+                    sib_elements = sut.st_parser.parse(sut.materialize_file(path))
+                except Exception as exc:  # pylint: disable=broad-except
+                    ctx.count("parse_failed." + type(exc).__name__)
+                    sib_elements = None
+                finally:
+                    gen_docs.remove_files(sibling, directory)
+                if sib_elements is not None:
+                    ctx.count("source.sibling_docs")
+                    roundtrip(ctx, sut, fpm, sib_elements, {"files": sibling["files"], "entry": sibling["entry"]},
+                              tag + "v")
 
 
 def replay(case, ctx):
